@@ -43,6 +43,7 @@ class C07(MotionMonitor):
             "value < 1e-4 or >= 1e16 in magnitude (non-zero)")
     assumptions = ["inputs are plain decimal with <= 20 significant digits", "script lines are recognised by equality with the configured lines"]
     classes = [(3, "hostile-values", mk(hv=True, rel=True, inch=True, arcs=True, spell=True)),
+               (3, "hostile-values-free-e", mk(hv=True, rel=True, inch=True, egrid=False, g92e_retracted=True, p_inside=0.5)),
                (2, "hostile-values-firmware", mk(hv=True, fw=True, rel=True, inch=True)),
                (2, "plain", mk(rel=True, inch=True, arcs=True, at=True)),
                (1, "plain-g92e-retracted", mk(g92e_retracted=True, inch=True))]
@@ -180,7 +181,7 @@ class C07(MotionMonitor):
             else:
                 # owed recovery injected before a forwarded command: ends at the file's E before the command,
                 # and advances by the retraction physically outstanding on the printer
-                if not close(e1 * unit, r["B_before"]["e"]) or abs((e1 - e92) * unit - r["A_before"]["depth"]) > 1e-9 * max(1.0, abs(e1 * unit), r["A_before"]["hi"]):
+                if not close(e1 * unit, r["B_before"]["e"]) or abs((e1 - e92) * unit - r["A_before"]["depth"]) > max(1e-7, 1e-9 * max(1.0, abs(e1 * unit), r["A_before"]["hi"])):
                     out.append(viol(tr, r, "recovery-pair-values", "%r: file E before the command %r mm, outstanding retraction %r mm, unit %r"
                                     % (gen, r["B_before"]["e"], r["A_before"]["depth"], unit)))
         elif codes == ["G92"]:
